@@ -861,6 +861,73 @@ func ruleCacheFromDisk(c *Ctx, ls *loaderSSA) {
 		}
 	}
 	c.census("G-CACHEENV", "entries put into the per-file cache and writes into cached entries", nEnv, 1)
+	// G-CACHEOWN: ... and it is the parse of THAT file only.  Nothing an entry holds is the outcome of the include
+	// recursion (a resolved tree, the error list of a whole load): such a value also describes the files below the
+	// cached one - their parse errors, missing includes, cycles - as they were when the entry was made; served on a
+	// later load it repeats them next to the freshly computed ones and keeps them after the faulty file was repaired
+	// and invalidated (C11-m28: `store(path, &cachedJournal{journal: result.Primary, parseErrors: errors})` with the
+	// whole load's errors, both []LoadError).
+	var loadIn func(v ssa.Value, depth int, seenP map[*ssa.Parameter]bool) string
+	loadIn = func(v ssa.Value, depth int, seenP map[*ssa.Parameter]bool) string {
+		sl, unbound := backSlicePrecise(v)
+		var hits []string
+		for w := range sl {
+			if call, ok := w.(*ssa.Call); ok {
+				if cal := call.Call.StaticCallee(); cal != nil && ls.scc[cal] {
+					hits = append(hits, funcName(cal))
+				}
+			}
+		}
+		sort.Strings(hits)
+		if len(hits) > 0 {
+			return hits[0]
+		}
+		if depth >= 3 {
+			return ""
+		}
+		var ps []*ssa.Parameter
+		for p := range unbound {
+			ps = append(ps, p)
+		}
+		sort.Slice(ps, func(i, j int) bool { return ps[i].Pos() < ps[j].Pos() })
+		for _, p := range ps {
+			if seenP[p] || !carriesText(p.Type()) && !strings.Contains(types.TypeString(p.Type(), nil), "/internal/include.") {
+				continue
+			}
+			seenP[p] = true
+			idx := -1
+			for i, q := range p.Parent().Params {
+				if q == p {
+					idx = i
+				}
+			}
+			for _, site := range cg.callersOf(p.Parent()) {
+				if idx >= 0 && idx < len(site.Common().Args) {
+					if w := loadIn(site.Common().Args[idx], depth+1, seenP); w != "" {
+						return w
+					}
+				}
+			}
+		}
+		return ""
+	}
+	nOwn := 0
+	for _, f := range ls.fns {
+		for _, b := range f.Blocks {
+			for _, ins := range b.Instrs {
+				mu, ok := ins.(*ssa.MapUpdate)
+				if !ok || ls.cache == nil || mapFieldOf(mu.Map) != ls.cache {
+					continue
+				}
+				nOwn++
+				bad := loadIn(mu.Value, 0, map[*ssa.Parameter]bool{})
+				c.check(bad == "", "G-CACHEOWN", funcName(f), "a cached entry holds the parse of its own file only", mu.Pos(),
+					"no outcome of the include recursion flows into the entry",
+					"the per-file cache receives an entry that holds an outcome of the include recursion ("+bad+"): the errors or trees of the files below the cached one, as they were at that load, are served again on every later load that includes the file - reported twice next to the fresh ones, and still reported after the faulty file was repaired on disk and invalidated")
+			}
+		}
+	}
+	c.census("G-CACHEOWN", "entries put into the per-file cache", nOwn, 1)
 }
 
 // ruleEncoderFresh (T12-FRESH): the array a semantic-tokens response carries - and the token cache keeps for the
